@@ -42,8 +42,8 @@ def req_case(draw, with_cov, mode):
         tc["pmiss"] = draw(st.sampled_from([0.0, 0.15, 0.15, 0.4]))
         tc["cols"] = max(tc["cols"], 6)
         extra = draw(st.integers(0, 9)) == 0
-    return {"table": tc, "rtol": rtol, "mode": mode, "pick": draw(st.integers(0, 2**16)),
-            "delta": draw(st.sampled_from([0.0, 0.2, -0.3])), "extra_req": extra,
+    return {"table": tc, "rtol": rtol, "mode": mode, "pick": draw(st.integers(0, 2**16)), "selform": draw(st.sampled_from(["list", "list", "tuple", "array", "series-permuted-labels"])),
+            "delta": draw(st.sampled_from([0.0, 0.2, -0.3, 0.0, 0.2, -0.3, "just-above-band", "just-below-band"])), "extra_req": extra,
             "pstab": draw(st.sampled_from([0.9, 0.6])), "pspur": draw(st.sampled_from([0.0, 0.15])),
             "onset": draw(st.integers(0, 6))}
 
@@ -57,7 +57,12 @@ def _requests(case, t):
     req = []
     for k in range(len(f0)):
         if rng.random() < 0.75:
-            req.append(float(f0[k] * (1 + case["delta"] * rtol)))
+            if isinstance(case["delta"], str):
+                # the pole lies outside the band by half of rtol^2 (clear of the threshold, inside any band that is a little too generous)
+                e = rtol * (1 + 0.5 * rtol)
+                req.append(float(f0[k] / (1 + e) if case["delta"] == "just-above-band" else f0[k] / (1 - e)))
+            else:
+                req.append(float(f0[k] * (1 + case["delta"] * rtol)))
     if case["extra_req"]:
         req.append(float((f0.max() if len(f0) else 1.0) * 1.9))
     if not req:
@@ -116,12 +121,27 @@ def _compare(j, tag, got, t, exp_rows, exp_cols, l):
         j.check(got[3] is not None, f"{tag}-cov-missing", "covariances not returned")
 
 
-def _call(kind, req, t, order, Lab, rtol):
+def _selform(req, form):
+    """the requested frequencies as a list, a tuple, an array or a pandas Series whose labels are not 0..n-1"""
+    req = [float(f) for f in req]
+    if form == "tuple":
+        return tuple(req)
+    if form == "array":
+        return np.array(req)
+    if form == "series-permuted-labels":
+        import pandas as pd
+
+        return pd.Series(req, index=list(range(len(req)))[::-1])
+    return req
+
+
+def _call(kind, req, t, order, Lab, rtol, form="list"):
+    req = _selform(req, form)
     if kind == "ssi":
-        return sut(ssi.SSI_mpe, list(req), t["Fn"].copy(), t["Xi"].copy(), t["Phi"].copy(), order, Lab=Lab, rtol=rtol,
+        return sut(ssi.SSI_mpe, req, t["Fn"].copy(), t["Xi"].copy(), t["Phi"].copy(), order, Lab=Lab, rtol=rtol,
                    Fn_cov=None if t["Fn_cov"] is None else t["Fn_cov"].copy(), Xi_cov=None if t["Xi_cov"] is None else t["Xi_cov"].copy(),
                    Phi_cov=None if t["Phi_cov"] is None else t["Phi_cov"].copy())
-    out = sut(plscf.pLSCF_mpe, list(req), t["Fn"].copy(), t["Xi"].copy(), t["Phi"].copy(), order, Lab=Lab, rtol=rtol)
+    out = sut(plscf.pLSCF_mpe, req, t["Fn"].copy(), t["Xi"].copy(), t["Phi"].copy(), order, Lab=Lab, rtol=rtol)
     if raised(out):
         return out
     return (out[0], out[1], out[2], out[3], None, None, None)
@@ -150,7 +170,7 @@ def judge_explicit(case, kind):
         j.skip("pole-near-band-edge")
         return j
     exp = model_explicit(Fn, req, orders, rtol)
-    out = _call(kind, req, t, order, None, rtol)
+    out = _call(kind, req, t, order, None, rtol, case.get("selform", "list"))
     if not j.check(not raised(out), f"{kind}-raises", lambda: f"{out!r}"):
         return j
     rows = [e for e in exp if e is not None]
@@ -227,7 +247,7 @@ def judge_find_min(case, kind):
             ca = cc
             break
     j.tag("abs_rel_differ" if ca != c else "abs_rel_same", "found" if c is not None else "none_qualifies")
-    out = _call(kind, req, t, "find_min", Lab.copy(), rtol)
+    out = _call(kind, req, t, "find_min", Lab.copy(), rtol, case.get("selform", "list"))
     if not j.check(not raised(out), f"{kind}-fm-raises", lambda: f"{out!r}"):
         return j
     if c is None:
@@ -252,7 +272,8 @@ def class_case(draw):
     return {"sys": s, "alg": alg, "ordmax": ordmax, "br": draw(st.integers(8, 12)), "N": draw(st.integers(1500, 3000)),
             "seed": draw(st.integers(0, 2**32 - 1)), "rtol": draw(st.sampled_from([0.05, 0.01])),
             "mode": draw(st.sampled_from(["int", "list", "find_min"])), "pick": draw(st.integers(0, 2**16)),
-            "unc": draw(st.booleans()), "extra_req": draw(st.booleans())}
+            "unc": draw(st.booleans()), "extra_req": draw(st.booleans()),
+            "selform": draw(st.sampled_from(["list", "list", "tuple", "array", "series-permuted-labels"]))}
 
 
 def judge_class(case):
@@ -299,7 +320,7 @@ def judge_class(case):
                 j.skip("stable-pole-near-band-edge")
                 return j
         c, rows = model_find_min(Fn, Lab, req, rtol)
-        r = sut(ss.mpe, "a", sel_freq=list(req), order="find_min", rtol=rtol)
+        r = sut(ss.mpe, "a", sel_freq=_selform(req, case.get("selform", "list")), order="find_min", rtol=rtol)
         if not j.check(not raised(r), "class-fm-raises", lambda: f"{r!r}"):
             return j
         if c is None:
@@ -320,7 +341,7 @@ def judge_class(case):
             j.skip("pole-near-band-edge")
             return j
         exp = model_explicit(Fn, req, orders, rtol)
-        r = sut(ss.mpe, "a", sel_freq=list(req), order=order, rtol=rtol)
+        r = sut(ss.mpe, "a", sel_freq=_selform(req, case.get("selform", "list")), order=order, rtol=rtol)
         if not j.check(not raised(r), "class-raises", lambda: f"{r!r}"):
             return j
         exp_rows = [e for e in exp if e is not None]
@@ -364,13 +385,13 @@ def judge_wiring(case):
                                Phi_poles_cov=None if t["Phi_cov"] is None else t["Phi_cov"].copy())
     alg._set_data(np.zeros((4, case["table"]["nch"])), 10.0)
 
-    def call(kind_, req, t_, order, Lab_, rtol):
+    def call(kind_, req, t_, order, Lab_, rtol, form="list"):
         if case.get("default_rtol"):
             # an earlier call with another tolerance must not change what the documented default (5e-2) means
             sut(alg.mpe, sel_freq=list(req), order=order, rtol=case["first_rtol"])
             r = sut(alg.mpe, sel_freq=list(req), order=order)
         else:
-            r = sut(alg.mpe, sel_freq=list(req), order=order, rtol=rtol)
+            r = sut(alg.mpe, sel_freq=_selform(req, case.get("selform", "list")), order=order, rtol=rtol)
         if raised(r):
             return r
         res = alg.result
@@ -404,6 +425,7 @@ def wiring_case(draw):
         c["rtol"] = 0.05  # the documented default of SSI*.mpe and pLSCF.mpe
     if mode != "find_min":
         c["table"]["pert"] = draw(st.sampled_from([0.0, 0.1, 0.3, 0.6, 1.5])) * c["rtol"]
+    c["selform"] = draw(st.sampled_from(["list", "list", "tuple", "array", "series-permuted-labels"]))
     return c
 
 
